@@ -45,11 +45,11 @@ def pred_pool(depth, wide=False):
         prev, rep = pools[-1], reps[-1]
         new = [("not", x) for x in prev]
         maxar = 3 if d == 0 else 2
-        if wide and d == 1:
+        if wide and d <= 2:
             maxar = 3
         for op in ("and", "or"):
             for ar in range(0, maxar + 1):
-                base = rep if ar <= 2 else rep[:4]
+                base = rep if ar <= 2 else rep[:(6 if wide else 4)]
                 for tup in itertools.product(base, repeat=ar):
                     new.append((op,) + tup)
         seen = set(prev)
